@@ -70,8 +70,29 @@ func init() {
 			"(gRPC status message, headers, body) is scanned for each of them raw, query- and path-escaped, base64 (4 alphabets), hex and inside Basic credentials; distinct_nontrivial = distinct projected traces reaching a token exchange or write"
 		runHistories(c, 14, histProfile{N: n, MinLen: 8, MaxLen: 36, FaultRate: 15, AttackRate: 30, Stores: []string{"memory", "redis"}, Browsers: 2}, func(s *Sim) map[string]any {
 			secrets := s.allSecrets()
+			// what may never be sent anywhere: the client secret, verifiers and refresh tokens (an OK forwards the ID token
+			// and, when configured, the access token - nothing else)
+			var never []string
+			for _, x := range secrets {
+				if x == s.w.Cfg.GetClientSecret() || strings.HasPrefix(x, "RT-") {
+					never = append(never, x)
+				}
+			}
+			for _, g := range s.w.gen.All {
+				never = append(never, g.Verifier)
+			}
 			for i, st := range s.Steps {
 				if st.Resp.Class == "allow" {
+					text := ""
+					for _, h := range st.Resp.Headers {
+						text += "\n" + h[0] + ": " + h[1]
+					}
+					if sec, enc := findLeak(text, never, s.w.Cfg.GetClientId()); sec != "" {
+						c.Sum.GoFindings = append(c.Sum.GoFindings, Finding{Signature: "C14/credential-forwarded-upstream",
+							What: fmt.Sprintf("OK answer %d adds a credential that is neither the ID token nor the access token to the upstream request (%s encoding): %.40s...", i, enc, sec),
+							Replay: s.descr(map[string]any{"step": i})})
+						break
+					}
 					continue
 				}
 				text := st.Resp.Message + "\n" + st.Resp.Body
